@@ -2,6 +2,8 @@ package world
 
 import (
 	"fmt"
+	"net/http"
+	"strings"
 
 	"github.com/q191201771/lal/pkg/logic"
 	"github.com/q191201771/lal/pkg/rtsp"
@@ -21,6 +23,11 @@ type RtspPeer struct {
 	Items  []ref.RtspItem // everything lal has written, parsed
 	Err    error
 	Tracks []string // control attributes from the SDP (publisher: as announced; player: as described)
+	// Ws: RTSP over WebSocket (requests go out as masked binary frames; what lal writes is an HTTP 101
+	// answer followed by unmasked binary frames whose payloads form the RTSP byte stream)
+	Ws      bool
+	wsRaw   []byte
+	wsHdrOk bool
 }
 
 func (w *W) NewRtspPeer(uri string) *RtspPeer {
@@ -33,12 +40,89 @@ func (w *W) NewRtspPeer(uri string) *RtspPeer {
 
 func (p *RtspPeer) Request(method, uri string, headers map[string]string, body []byte) {
 	p.cseq++
-	p.Conn.Feed(ref.RtspRequest(method, uri, p.cseq, headers, body))
+	b := ref.RtspRequest(method, uri, p.cseq, headers, body)
+	if p.Ws {
+		b = wsMasked(b)
+	}
+	p.Conn.Feed(b)
+}
+
+func wsMasked(payload []byte) []byte {
+	b := []byte{0x82}
+	switch {
+	case len(payload) < 126:
+		b = append(b, 0x80|byte(len(payload)))
+	case len(payload) < 65536:
+		b = append(b, 0x80|126, byte(len(payload)>>8), byte(len(payload)))
+	default:
+		b = append(b, 0x80|127, 0, 0, 0, 0, byte(len(payload)>>24), byte(len(payload)>>16), byte(len(payload)>>8), byte(len(payload)))
+	}
+	key := []byte{9, 8, 7, 6}
+	b = append(b, key...)
+	for i, x := range payload {
+		b = append(b, x^key[i%4])
+	}
+	return b
+}
+
+// NewRtspWsPeer is an RTSP client over WebSocket served by the real rtsp WebSocket handler.
+func (w *W) NewRtspWsPeer(uri string) *RtspPeer {
+	w.nconn++
+	c := w.Net.NewConn(fmt.Sprintf("wsrtsp%d", w.nconn))
+	req, _ := http.NewRequest("GET", "http://h/live/s", nil)
+	req.RemoteAddr = c.Remote
+	req.Header.Set("Connection", "Upgrade")
+	req.Header.Set("Upgrade", "websocket")
+	req.Header.Set("Sec-WebSocket-Key", "dGhlIHNhbXBsZSBub25jZQ==")
+	hw := NewHijackWriter(c)
+	w.Net.Go(c, func() { rtsp.VerifHandleWs(w.SM, rtsp.ServerAuthConfig{}, hw, req) })
+	return &RtspPeer{W: w, Conn: c, Uri: uri, Ws: true}
+}
+
+// unwrapWs turns what arrived on a WebSocket connection into the RTSP byte stream it carries.
+func (p *RtspPeer) unwrapWs(b []byte) []byte {
+	p.wsRaw = append(p.wsRaw, b...)
+	if !p.wsHdrOk {
+		i := strings.Index(string(p.wsRaw), "\r\n\r\n")
+		if i < 0 {
+			return nil
+		}
+		if !strings.HasPrefix(string(p.wsRaw), "HTTP/1.1 101") {
+			p.Err = fmt.Errorf("websocket upgrade answered %q", strings.SplitN(string(p.wsRaw), "\r\n", 2)[0])
+			return nil
+		}
+		p.wsRaw = append([]byte{}, p.wsRaw[i+4:]...)
+		p.wsHdrOk = true
+	}
+	frames, rest, err := ref.ParseWsFrames(p.wsRaw)
+	if err != nil {
+		p.Err = fmt.Errorf("websocket framing: %w", err)
+		return nil
+	}
+	p.wsRaw = append([]byte{}, p.wsRaw[len(p.wsRaw)-rest:]...)
+	var out []byte
+	for _, f := range frames {
+		if f.Masked || !f.Fin || f.Opcode != 2 {
+			p.Err = fmt.Errorf("websocket frame fin=%v opcode=%d masked=%v (want one unmasked binary frame per unit)", f.Fin, f.Opcode, f.Masked)
+			return nil
+		}
+		// one WebSocket frame carries whole RTSP units
+		if _, r, err := ref.ParseRtspStream(f.Payload); err != nil || r != 0 {
+			p.Err = fmt.Errorf("websocket frame of %d bytes does not hold whole RTSP units (rest %d, %v)", len(f.Payload), r, err)
+			return nil
+		}
+		out = append(out, f.Payload...)
+	}
+	return out
 }
 
 // Pump parses what lal has written since the last call.
 func (p *RtspPeer) Pump() []ref.RtspItem {
-	p.raw = append(p.raw, p.Conn.Take()...)
+	got := p.Conn.Take()
+	if p.Ws && p.Err == nil {
+		got = p.unwrapWs(got)
+	}
+	p.raw = append(p.raw, got...)
 	if p.Err != nil {
 		return nil
 	}
@@ -53,7 +137,7 @@ func (p *RtspPeer) Pump() []ref.RtspItem {
 }
 
 // Residue: bytes received that do not yet form a whole item.
-func (p *RtspPeer) Residue() int { return len(p.raw) }
+func (p *RtspPeer) Residue() int { return len(p.raw) + len(p.wsRaw) }
 
 func (p *RtspPeer) LastStatus() int {
 	for i := len(p.Items) - 1; i >= 0; i-- {
@@ -91,7 +175,19 @@ func (w *W) RtspPublisher(uri string, sdp []byte, controls []string) (*RtspPeer,
 // RtspPlayer DESCRIBEs, SETUPs every described track interleaved and PLAYs. If lal holds the
 // DESCRIBE answer back (no SDP yet) the peer stays in the described stage; call Continue later.
 func (w *W) RtspPlayer(uri string, extraHeaders map[string]string) (*RtspPeer, error) {
-	p := w.NewRtspPeer(uri)
+	return w.rtspPlayerOn(w.NewRtspPeer(uri), uri, extraHeaders)
+}
+
+// RtspPlayerWs: the same player over WebSocket.
+func (w *W) RtspPlayerWs(uri string, extraHeaders map[string]string) (*RtspPeer, error) {
+	p := w.NewRtspWsPeer(uri)
+	if err := w.Settle(); err != nil {
+		return p, err
+	}
+	return w.rtspPlayerOn(p, uri, extraHeaders)
+}
+
+func (w *W) rtspPlayerOn(p *RtspPeer, uri string, extraHeaders map[string]string) (*RtspPeer, error) {
 	h := map[string]string{"Accept": "application/sdp"}
 	for k, v := range extraHeaders {
 		h[k] = v
